@@ -143,3 +143,20 @@ Proof.
   apply Nat.leb_le in H1, H2. split; [lia|]. destruct (ivalue i); [discriminate|reflexivity].
 Qed.
 
+(* a pseudo-push accepted by the item checker occurs, with the same operand, in the input block *)
+Lemma wf_emitted_pseudo_push known sto input i : wf_emitted known sto input i = true ->
+  mem_str (disasm i) pseudo_push_names = true ->
+  exists j, In j input /\ disasm j = disasm i /\ ivalue j = ivalue i.
+Proof.
+  intros H Hm. unfold wf_emitted in H. apply andb_prop in H as [_ H].
+  pose proof Hm as Hm'. unfold mem_str in Hm'. apply existsb_exists in Hm' as (x & Hin & Heq).
+  apply String.eqb_eq in Heq.
+  assert (E : String.eqb (disasm i) "PUSH" = false /\ String.eqb (disasm i) "PUSH0" = false).
+  { rewrite Heq. unfold pseudo_push_names in Hin. cbn [In] in Hin.
+    repeat (destruct Hin as [Hin|Hin]; [rewrite <- Hin; split; reflexivity|]). destruct Hin. }
+  destruct E as [E1 E2]. rewrite E1, E2, Hm in H.
+  apply existsb_exists in H as (j & Hj & Hc). apply andb_prop in Hc as [Hn Hv]. apply String.eqb_eq in Hn.
+  exists j. split; [exact Hj|]. split; [exact Hn|].
+  destruct (ivalue i) as [a|], (ivalue j) as [b|]; try discriminate; [|reflexivity].
+  apply String.eqb_eq in Hv. subst. reflexivity.
+Qed.
